@@ -899,10 +899,17 @@ func (self *_Compiler) compileArray(p *_Program, sp int, vt reflect.Type) {
 		p.chr(_OP_match_char, ',')
 	}
 
-	/* drop rest of the array */
+	/* drop rest of the array, a value must follow the last comma */
+	p.add(_OP_lspace)
+	e := p.pc()
+	p.chr(_OP_check_char_0, ']')
 	p.add(_OP_array_skip)
 	w := p.pc()
 	p.add(_OP_goto)
+
+	/* "[...,]": report the bracket as an invalid char */
+	p.pin(e)
+	p.chr(_OP_match_char, ',')
 	p.rel(v)
 
 	/* check for pointer data */
